@@ -4,6 +4,7 @@ import functools
 import itertools
 import math
 import re
+import warnings
 
 from ckl.errors import CklRuntimeError
 from ckl.date import to_oa_date, to_date
@@ -1507,7 +1508,12 @@ class ValueOutput(Value):
 class ValuePattern(Value):
     def __init__(self, value):
         self.value = value
-        self.pattern = re.compile(value)
+        # the host announces coming changes of its pattern syntax as
+        # warnings ('[[a]'): whether a text is a pattern must not depend
+        # on how the host's warning filter is set
+        with warnings.catch_warnings():
+            warnings.simplefilter("ignore", FutureWarning)
+            self.pattern = re.compile(value)
 
     def __hash__(self):
         return hash(self.value)
